@@ -4,8 +4,90 @@ use crate::simcpu::{cpu, run_stepped, Ev};
 use x86_64::structures::gdt::{Descriptor, GlobalDescriptorTable};
 use x86_64::structures::idt::InterruptDescriptorTable;
 
+/// addresses B that are multiples of large powers of two (2^24 inside an anonymous mapping, and 2^32 when the address space
+/// below it is free), each with 64 KiB of writable memory on either side: tables placed across B cross every smaller
+/// power-of-two boundary at once
+pub fn boundary_addresses() -> Vec<u64> {
+    use std::sync::OnceLock;
+    static B: OnceLock<Vec<u64>> = OnceLock::new();
+    B.get_or_init(|| {
+        let mut v = vec![];
+        unsafe {
+            let len = 1usize << 25;
+            let p = libc::mmap(core::ptr::null_mut(), len, libc::PROT_READ | libc::PROT_WRITE, libc::MAP_PRIVATE | libc::MAP_ANONYMOUS | libc::MAP_NORESERVE, -1, 0);
+            if p != libc::MAP_FAILED {
+                let b = ((p as u64) + (1 << 24) - 1) & !((1u64 << 24) - 1);
+                if b >= p as u64 + 0x10000 && b + 0x10000 <= p as u64 + len as u64 {
+                    v.push(b);
+                } else {
+                    v.push(b + (1 << 23)); // still a multiple of 2^23
+                }
+            }
+            let want = 0x1_0000_0000u64 - 0x10000;
+            let q = libc::mmap(want as *mut libc::c_void, 0x20000, libc::PROT_READ | libc::PROT_WRITE, libc::MAP_PRIVATE | libc::MAP_ANONYMOUS | libc::MAP_FIXED_NOREPLACE, -1, 0);
+            if q != libc::MAP_FAILED && q as u64 == want {
+                v.push(0x1_0000_0000);
+            } else if q != libc::MAP_FAILED {
+                libc::munmap(q, 0x20000);
+            }
+        }
+        v
+    })
+    .clone()
+}
+
+/// tables whose bytes lie across such a boundary (and just before / just behind it): the operand of lidt / lgdt is the
+/// table's own address with its own limit wherever the object lives
+pub fn idt_across_boundaries(r: &mut Rep) {
+    crate::simcpu::init();
+    let size = core::mem::size_of::<InterruptDescriptorTable>() as i64;
+    for b in boundary_addresses() {
+        for off in [-size - 16, -size, -size + 16, -size + 2048, -2048, -size / 2, -16, 0, 16, -size + 4080, -0x1000 - size + 16] {
+            let addr = (b as i64 + off) as u64;
+            let t = addr as *mut InterruptDescriptorTable;
+            unsafe { t.write(InterruptDescriptorTable::new()) };
+            let t: &InterruptDescriptorTable = unsafe { &*t };
+            cpu().clear_events();
+            let _ = run_stepped(|| unsafe { t.load_unsafe() });
+            let ev = cpu().evs();
+            r.ev(true);
+            if !(ev.len() == 1 && matches!(ev[0], Ev::Lidt(4095, x, _) if x == addr)) {
+                r.viol("C12|load_unsafe|lidt-operand-depends-on-where-the-table-lies-relative-to-a-power-of-two-boundary", &format!("loadacross {:#x} {}", b, off), &format!("{:x?} expected Lidt(4095, {:#x})", ev, addr));
+            }
+        }
+    }
+}
+
+pub fn gdt_across_boundaries(r: &mut Rep) {
+    crate::simcpu::init();
+    let size = core::mem::size_of::<GlobalDescriptorTable<8>>() as i64;
+    for b in boundary_addresses() {
+        for off in [-size - 8, -size, -size + 8, -size + 16, -32, -16, -8, 0, 8, -0x10000 + 8] {
+            for appends in [0usize, 3, 7] {
+                let addr = (b as i64 + off) as u64;
+                let t = addr as *mut GlobalDescriptorTable<8>;
+                let mut g = GlobalDescriptorTable::<8>::empty();
+                for _ in 0..appends {
+                    g.append(Descriptor::kernel_data_segment());
+                }
+                unsafe { t.write(g) };
+                let t: &GlobalDescriptorTable<8> = unsafe { &*t };
+                let (base, limit) = (t.entries().as_ptr() as u64, (8 * (appends + 1) - 1) as u16);
+                cpu().clear_events();
+                let _ = run_stepped(|| unsafe { t.load_unsafe() });
+                let ev = cpu().evs();
+                r.ev(true);
+                if t.limit() != limit || !(ev.len() == 1 && matches!(ev[0], Ev::Lgdt(l, x, _) if l == limit && x == base)) {
+                    r.viol("C14|load_unsafe|lgdt-operand-depends-on-where-the-table-lies-relative-to-a-power-of-two-boundary", &format!("gdtloadacross {:#x} {} {}", b, off, appends), &format!("{:x?} expected Lgdt({:#x}, {:#x})", ev, limit, base));
+                }
+            }
+        }
+    }
+}
+
 pub fn run(r: &mut Rep) {
     crate::simcpu::init();
+    idt_across_boundaries(r);
     // several tables at different addresses (stack, heap, static)
     let stack_idt = InterruptDescriptorTable::new();
     let heap_idt: Box<InterruptDescriptorTable> = Box::new(InterruptDescriptorTable::new());
@@ -73,7 +155,12 @@ pub fn run_cs(r: &mut Rep) {
     use x86_64::structures::idt::{Entry, HandlerFunc};
     use x86_64::VirtAddr;
     crate::simcpu::init();
-    for cs in [0x08u16, 0x10, 0x33, 0x1b, 0xfff8, 0x0, 0xffff, 0x28] {
+    let mut sels = vec![0x08u16, 0x10, 0x33, 0x1b, 0xfff8, 0x0, 0xffff, 0x28, 0x0c, 0x27];
+    for b in 0..16 {
+        sels.push(1 << b);
+        sels.push(!(1u16 << b));
+    }
+    for cs in sels {
         for addr in [0xffff_8000_0012_3000u64, 0x0000_7fff_ffff_f000, 0x1000] {
             cpu().sel[1] = cs;
             cpu().clear_events();
@@ -101,6 +188,7 @@ pub fn run_cs(r: &mut Rep) {
 
 pub fn run_gdt(r: &mut Rep) {
     crate::simcpu::init();
+    gdt_across_boundaries(r);
     fn one<const M: usize>(r: &mut Rep, appends: usize) {
         let mut g: Box<GlobalDescriptorTable<M>> = Box::new(GlobalDescriptorTable::<M>::empty());
         for i in 0..appends {
